@@ -124,6 +124,7 @@ class SchemaBuilder:
     def __init__(self, F):
         self.F = F
         self.registry = {}
+        self.vlocals = {}
         prim = make_primitive(F)
         self.S = {
             "read": paths.Summarizer(F, prim, mode=flow.MODE_READ, value_proxies=True),
@@ -136,20 +137,22 @@ class SchemaBuilder:
         fns = self.F.method(cls, short)
         if not fns:
             return None
-        old = flow.KEYNODE
-        flow.KEYNODE = self.registry
+        import versions
+        old, oldv = flow.KEYNODE, versions.VERSION_LOCALS
+        flow.KEYNODE, versions.VERSION_LOCALS = self.registry, self.vlocals
         try:
             return self.S[direction].events(fns[0]["id"])
         finally:
-            flow.KEYNODE = old
+            flow.KEYNODE, versions.VERSION_LOCALS = old, oldv
 
     def fn_events(self, fid, direction):
-        old = flow.KEYNODE
-        flow.KEYNODE = self.registry
+        import versions
+        old, oldv = flow.KEYNODE, versions.VERSION_LOCALS
+        flow.KEYNODE, versions.VERSION_LOCALS = self.registry, self.vlocals
         try:
             return self.S[direction].events(fid)
         finally:
-            flow.KEYNODE = old
+            flow.KEYNODE, versions.VERSION_LOCALS = old, oldv
 
 
 class RegionView:
@@ -165,16 +168,22 @@ class RegionView:
         """True/False if the guard key has a definite truth value in this region, else None"""
         if key in self.cache:
             return self.cache[key]
+        import versions
         node = self.b.registry.get(key)
         val = None
-        if isinstance(node, tuple):
-            v = self.VE.ev(node[1], self.region)
-            if v is not None:
-                val = (bool(v) == node[2])
-        elif is_node(node):
-            v = self.VE.ev(node, self.region)
-            if v is not None:
-                val = bool(v)
+        oldv = versions.VERSION_LOCALS
+        versions.VERSION_LOCALS = self.b.vlocals
+        try:
+            if isinstance(node, tuple):
+                v = self.VE.ev(node[1], self.region)
+                if v is not None:
+                    val = (bool(v) == node[2])
+            elif is_node(node):
+                v = self.VE.ev(node, self.region)
+                if v is not None:
+                    val = bool(v)
+        finally:
+            versions.VERSION_LOCALS = oldv
         self.cache[key] = val
         return val
 
